@@ -196,3 +196,22 @@ PROPS["C16"] = dict(
          "exact routes; every case is distinct by index; borderline tests (|term - accuracy| <= 1e-6 accuracy) are skipped and "
          "counted",
 )
+
+PROPS["C04"] = dict(
+    level="proof",
+    paths=["C"],
+    technique="Lean 4 theorems (the Python and C constructions of the operator-string masks and hence their tables are "
+              "equal; C bit helpers generated from bitstring.h = Python helpers; marshalling through int vs uint64) + "
+              "exact cross-run of one deterministic battery of public calls on both code paths",
+    text="Where the two paths implement different algorithms the model has both and they are proved equal for all inputs "
+         "(mask construction, bit helpers with the 2ull<<63 wrap, 32-bit marshalling characterised exactly); every other "
+         "pair is decided by running the same seeded battery (string tables, maps, apply of all Hamiltonian classes, "
+         "single-term evolution and RDMs with orbital indices 30..63, Wick-reordered RDMs, qubit export) in two interpreters "
+         "and comparing every array: bitwise for tables and integer data, 1e-10 otherwise.",
+    note="Lean kernel; the cross-run is a differential test within the explored box (norb<=4 for dense data, one-electron "
+         "sectors up to norb=64 thorough / 33 quick); every other check of this suite also runs on both paths against the "
+         "same model.",
+    design_ref="DESIGN.md §5 C04",
+    rule="cases = named result arrays of the battery (tables, helper values, apply/evolve/rdm/cirq results); non-trivial = "
+         "array with a non-zero entry; distinct by result name",
+)
